@@ -25,6 +25,9 @@ def _call(name, *args):
 
 
 def component(call, i):
+    # divmod(a, b)[0] / [1] are a // b and a % b: keep expansions in that canonical spelling
+    if isinstance(call, ast.Call) and isinstance(call.func, ast.Name) and call.func.id == "divmod" and len(call.args) == 2 and not call.keywords and i in (0, 1):
+        return ast.BinOp(left=call.args[0], op=ast.FloorDiv() if i == 0 else ast.Mod(), right=call.args[1])
     return _call("__component__", call, ast.Constant(value=i))
 
 
@@ -212,17 +215,39 @@ def set_program(program):
 
 
 def _inlinable_body(fi):
-    """No loops / with / try / yield / nested defs; no write through a parameter or self."""
+    """None when the helper cannot be expanded (loops / with / try / yield / nested defs / varargs),
+    else the set of its parameters it writes through (x[...] = .., x.attr = .., x += .., x.mul_(..)):
+    such a helper is expanded only at call sites that bind those parameters to attribute chains of
+    self (module state), where the substituted statement is the very write the caller would do."""
     node = fi.node
     a = node.args
     if a.vararg is not None or a.kwarg is not None:
-        return False
+        return None
     params = {x.arg for x in list(a.posonlyargs) + list(a.args) + list(a.kwonlyargs)}
+    sn = fi.self_name()
+    mutated = set()
+    loop_var_params = {}  # loop variable -> parameters its literal elements name
+    loop_targets = set()
     for n in ast.walk(node):
         if n is node:
             continue
+        if isinstance(n, ast.For) and isinstance(n.iter, (ast.Tuple, ast.List)) and 0 < len(n.iter.elts) <= 8 and not n.orelse:
+            # unrolled by the expansion; a loop variable bound to a parameter / attribute carries
+            # its writes to what the elements are
+            tnames = [x.id if isinstance(x, ast.Name) else None for x in (n.target.elts if isinstance(n.target, (ast.Tuple, ast.List)) else [n.target])]
+            for elt in n.iter.elts:
+                subs = elt.elts if isinstance(elt, (ast.Tuple, ast.List)) and len(tnames) > 1 else [elt]
+                for pos, sub in enumerate(subs):
+                    root = sub
+                    while isinstance(root, (ast.Attribute, ast.Subscript)):
+                        root = root.value
+                    tn = tnames[pos] if pos < len(tnames) else None
+                    if tn is not None and isinstance(root, ast.Name) and root.id in params and root.id != sn:
+                        loop_var_params.setdefault(tn, set()).add(root.id)
+            loop_targets |= {t for t in tnames if t}
+            continue
         if isinstance(n, (ast.For, ast.While, ast.With, ast.Try, ast.Yield, ast.YieldFrom, ast.FunctionDef, ast.Lambda, ast.Global, ast.Nonlocal, ast.Await)):
-            return False
+            return None
         tgts = []
         if isinstance(n, ast.Assign):
             tgts = n.targets
@@ -235,17 +260,23 @@ def _inlinable_body(fi):
                     while isinstance(root, (ast.Subscript, ast.Attribute)):
                         root = root.value
                     if isinstance(root, ast.Name) and root.id in params:
-                        return False
+                        if root.id == sn:
+                            return None  # writes module state under its own name: keep the call
+                        mutated.add(root.id)
             if isinstance(n, ast.AugAssign) and isinstance(t, ast.Name) and t.id in params:
-                return False  # x += ... on a parameter may write the caller's tensor
+                mutated.add(t.id)
         if isinstance(n, ast.Call) and isinstance(n.func, ast.Attribute) and n.func.attr.endswith("_") and not n.func.attr.endswith("__"):
             root = n.func.value
             while isinstance(root, (ast.Subscript, ast.Attribute, ast.Call)):
                 root = root.func if isinstance(root, ast.Call) else root.value
             if isinstance(root, ast.Name) and root.id in params:
-                return False
-    rets = [n for n in ast.walk(node) if isinstance(n, ast.Return)]
-    return bool(rets)
+                if root.id == sn:
+                    return None
+                mutated.add(root.id)
+            elif isinstance(root, ast.Name) and root.id in loop_targets:
+                # written through a loop variable: the parameters its literal elements name
+                mutated |= loop_var_params.get(root.id, set())
+    return mutated
 
 
 def _only_raises_body(fi):
@@ -302,8 +333,22 @@ def _resolve_helper(call, caller):
         target = r if hasattr(r, "node") and hasattr(r, "params") else None
     if target is None or getattr(target, "is_lambda", False) or target.is_property or _kept(target):
         return None
-    if id(target.node) in _CTX["stack"] or _only_raises_body(target) or not _inlinable_body(target):
+    if id(target.node) in _CTX["stack"] or _only_raises_body(target):
         return None
+    mutated = _inlinable_body(target)
+    if mutated is None:
+        return None
+    if mutated:
+        env = _bind_args(call, target)
+        if env is None:
+            return None
+        for pn in mutated:
+            a = env.get(pn)
+            root = a
+            while isinstance(root, (ast.Attribute, ast.Subscript)):
+                root = root.value
+            if not (isinstance(a, ast.Attribute) and isinstance(root, ast.Name) and root.id in ("self", "cls")):
+                return None  # would write a caller's local tensor: keep the call opaque
     return target
 
 
@@ -397,10 +442,28 @@ def _const_truth(test):
         return None
 
 
+class _FoldAssume(ast.NodeTransformer):
+    """`a if <test> else b` with the test decided by the scenario (`inverse` True / False ...)"""
+
+    def __init__(self, assume):
+        self.assume = assume
+
+    def visit_IfExp(self, node):
+        self.generic_visit(node)
+        v = _truth_under(node.test, self.assume)
+        if v is None:
+            v = _const_truth(node.test)
+        if v is None:
+            return node
+        return node.body if v else node.orelse
+
+
 def _inlined(expr, p, done, assume, max_paths, caller):
     """[(path, expression)]: `expr` with every inlinable helper call replaced by the helper's
     returned expression; the path forks per returning path of the helper (its conditions and
     effects are added); a helper path that raises ends the caller's path as a raise."""
+    if expr is not None and assume and any(isinstance(n, ast.IfExp) for n in uwalk(expr)):
+        expr = _FoldAssume(assume).visit(expr)
     if expr is None or caller is None or _CTX["program"] is None or len(_CTX["stack"]) >= MAX_INLINE_DEPTH:
         return [(p, expr)]
     hit = _first_helper_call(expr, caller)
@@ -550,6 +613,13 @@ def _run_stmt(st, p, done, assume, max_paths, caller=None):
         if isinstance(v, ast.Constant):
             return [p]
         ev = expand(v, p.env)
+        if isinstance(v, ast.Call) and caller is not None and _resolve_helper(v, caller) is not None:
+            # a helper called for its effect (a guard that raises): its paths continue or raise
+            out = []
+            for p2, v2 in _inlined(ev, p, done, assume, max_paths, caller):
+                p2.effects.append(("expr", st, v2))
+                out.append(p2)
+            return out
         p.effects.append(("expr", st, ev))
         if isinstance(v, ast.Call) and isinstance(v.func, ast.Attribute) and isinstance(v.func.value, ast.Name):
             nm = v.func.value.id
@@ -639,6 +709,16 @@ def _run_stmt(st, p, done, assume, max_paths, caller=None):
                 p2.conds.append((et, st.test, False))
                 out.extend(_run_block(st.orelse, [p2], done, assume, max_paths, caller))
         return out
+    if isinstance(st, ast.For) and isinstance(st.iter, (ast.Tuple, ast.List)) and 0 < len(st.iter.elts) <= 8 and not st.orelse and not any(isinstance(n, (ast.Break, ast.Continue)) for n in ast.walk(st)):
+        # a loop over a literal sequence is the sequence of its bodies
+        live = [p]
+        for elt in st.iter.elts:
+            nxt = []
+            for q in live:
+                _assign_target(st.target, expand(elt, q.env), elt, q)
+                nxt.extend(_run_block(st.body, [q], done, assume, max_paths, caller))
+            live = nxt
+        return live
     if isinstance(st, (ast.For, ast.While)):
         p.in_loop += 1
         if isinstance(st, ast.For):
@@ -659,6 +739,20 @@ def _run_stmt(st, p, done, assume, max_paths, caller=None):
     if isinstance(st, ast.Try):
         raise AnalysisIncomplete("try statement at line %d" % st.lineno)
     raise AnalysisIncomplete("unsupported statement %s at line %d" % (type(st).__name__, getattr(st, "lineno", 0)))
+
+
+def inline_expr(expr, fnode):
+    """[(conditions, expression)]: `expr` (as written inside function `fnode`) with the private
+    helpers it calls expanded; one alternative per returning path of the helpers."""
+    caller = _CTX["index"].get(id(fnode)) if fnode is not None else None
+    if expr is None or caller is None:
+        return [([], expr)]
+    done = []
+    try:
+        alts = _inlined(clone(expr), Path(), done, {}, MAX_PATHS, caller)
+    except AnalysisIncomplete:
+        return [([], expr)]
+    return [(list(p.conds), e) for p, e in alts] or [([], expr)]
 
 
 def body_expansion(stmts, fnode=None):
